@@ -67,7 +67,9 @@ pub fn parse_import(it: &mut LexIterator) -> ParseResult {
 
     let end = it.eat(&Token::Import, "import")?;
     let mut import = vec![];
-    it.peek_while_not_tokens(&[Token::As, Token::NL], &mut |it, _| {
+    // an import may be the last statement of a block or file
+    let end_of_import = [Token::As, Token::NL, Token::Dedent, Token::Eof];
+    it.peek_while_not_tokens(&end_of_import, &mut |it, _| {
         import.push(*it.parse(&parse_id, "import", start)?);
         it.eat_if(&Token::Comma);
         Ok(())
@@ -79,7 +81,7 @@ pub fn parse_import(it: &mut LexIterator) -> ParseResult {
 
     let alias = if it.eat_if(&Token::As).is_some() {
         let mut alias = vec![];
-        it.peek_while_not_token(&Token::NL, &mut |it, lex| match lex.token {
+        it.peek_while_not_tokens(&end_of_import[1..], &mut |it, lex| match lex.token {
             Token::Id(_) => {
                 alias.push(*it.parse(&parse_id, "as", start)?);
                 it.eat_if(&Token::Comma);
